@@ -581,12 +581,12 @@ mut("c14-key9-query-bases", "C14", "cmd/gts/search.go",
 mut("c14-key9-silent-local-bytes", "C14", "cmd/gts/insert.go",
     "\t\th.Write(guestBytes)\n", "\t\traw := guestBytes\n\t\th.Write(raw)\n", silent=True)
 mut("c14-key10-seekable-stdin", "C14", "cmd/gts/io.go",
-    "\tif d.infile == os.Stdin {\n\t\t// Write to a temporary file to enable seeking.",
-    "\tif d.infile == os.Stdin && len(data) > 0 {\n\t\t// Write to a temporary file to enable seeking.",
+    "\tif d.infile == os.Stdin || !seekable(d.infile) {\n\t\t// Write to a temporary file to enable seeking.",
+    "\tif (d.infile == os.Stdin && len(data) > 0) || !seekable(d.infile) {\n\t\t// Write to a temporary file to enable seeking.",
     ["KEY-10|main.ioDelegate.TryCache|hash"])
 mut("c14-key10-silent-flipped", "C14", "cmd/gts/io.go",
-    "\tif d.infile == os.Stdin {\n\t\t// Write to a temporary file to enable seeking.",
-    "\tif os.Stdin == d.infile {\n\t\t// Write to a temporary file to enable seeking.", silent=True)
+    "\tif d.infile == os.Stdin || !seekable(d.infile) {\n\t\t// Write to a temporary file to enable seeking.",
+    "\tif !seekable(d.infile) || os.Stdin == d.infile {\n\t\t// Write to a temporary file to enable seeking.", silent=True)
 mut("c01-reqbuf-dump-lookahead", "C01", "seqio/insdc.go",
     "\t\tif err := state.Request(len(p)); err != nil {\n\t\t\treturn err\n\t\t}\n\t\tif !bytes.Equal(state.Buffer(), p) {\n\t\t\treturn pars.NewError(fmt.Sprintf(\"expected %q\", prefix+\"/\"), state.Position())\n\t\t}\n\t\tstate.Advance()\n\t\treturn word(state, result)",
     "\t\tif !bytes.HasPrefix(state.Dump(), p) {\n\t\t\treturn pars.NewError(fmt.Sprintf(\"expected %q\", prefix+\"/\"), state.Position())\n\t\t}\n\t\tif err := pars.Skip(state, len(p)); err != nil {\n\t\t\treturn err\n\t\t}\n\t\treturn word(state, result)",
@@ -907,8 +907,9 @@ mut("c08-recordstate-silent-reset", "C08", "cmd/gts/extract.go", "\tfor scanner.
 mut("c15-rotatehead-leftmost", "C15", "cmd/gts/rotate.go", "seq = gts.Rotate(seq, -rr[0].Head())", "seq = gts.Rotate(seq, -gts.Min(rr[0].Head(), rr[0].Tail()))", ["ROTATE-HEAD|main.rotateFunc|rotate#1"])
 mut("c16-originlineend-last-line-only", "C16", "seqio/genbank_subparsers.go", "\t\t\tif len(bytes.TrimSpace(q[extent:])) != 0 {", "\t\t\tif i+60 >= length && len(bytes.TrimSpace(q[extent:])) != 0 {", ["ORIGIN-LINE-END|seqio.slowGenBankOriginParser|rest-of-line"])
 mut("c16-originend-slow-branch", "C16", "seqio/genbank_subparsers.go", "\t\t\tgb.Origin = &Origin{p, false}\n\t\t\treturn expectNoMoreResidues(state)\n\t\t}\n\t}\n}", "\t\t\tgb.Origin = &Origin{p, false}\n\t\t\treturn nil\n\t\t}\n\t}\n}", ["ORIGIN-END"])
-mut("c13-key10-seekable-stdin", "C13", "cmd/gts/io.go", "\tif d.infile == os.Stdin {\n", "\tif d.infile == os.Stdin && !seekable(os.Stdin) {\n", ["KEY-10|main.ioDelegate.TryCache|hash"],
-    old2="func (d *ioDelegate) TryCache(", new2="func seekable(f *os.File) bool {\n\t_, err := f.Seek(0, io.SeekCurrent)\n\treturn err == nil\n}\n\nfunc (d *ioDelegate) TryCache(")
+mut("c13-key10-seekable-stdin", "C13", "cmd/gts/io.go", "\tif d.infile == os.Stdin || !seekable(d.infile) {\n", "\tif !seekable(d.infile) {\n", ["KEY-10|main.ioDelegate.TryCache|hash"])
+mut("c14-key12-fifo-not-spooled-reverted", "C14", "cmd/gts/io.go", "\tif d.infile == os.Stdin || !seekable(d.infile) {\n", "\tif d.infile == os.Stdin {\n", ["KEY-12|main.ioDelegate.TryCache|hash"], note="the repaired defect, reintroduced")
+mut("c14-key12-probe-always-true", "C14", "cmd/gts/io.go", "\t_, err := f.Seek(0, io.SeekCurrent)\n\treturn err == nil\n", "\t_, err := f.Seek(0, io.SeekCurrent)\n\treturn err == nil || f != nil\n", ["KEY-12|main.ioDelegate.TryCache|hash"], note="a probe that does not return the outcome of the Seek is not a probe")
 
 # ---------------------------------------------------------------- refactoring round 4
 mut("c15-backfront-silent-sortslice-desc", "C15", "cmd/gts/infix.go", "\t\t\tsort.Sort(sort.Reverse(sort.IntSlice(indices)))\n", "\t\t\tsort.Slice(indices, func(a, b int) bool { return indices[a] > indices[b] })\n", silent=True)
